@@ -1065,7 +1065,35 @@ def dummy_protocol_events(ctx, rule="SIB-dummy-arg"):
     ok = False
     if lanes:
         rec = ev.vmaps[lanes[0][1]]
-        ok = rec["which"] == "jax.vmap" and rec["in_axes"] == ("tuple", (C(0), ("param", "in_axes"))) and len(rec["args"]) == 2 and rec["args"][1] == ("param", "args")
+        # in_axes paired with the arguments tuple: (0, in_axes), evaluated for every shape of axis specification jax.vmap accepts; a list
+        # is not a tree prefix of the arguments *tuple* and has to be turned into one
+        from ..absint import Model, Unknown
+        IA = ("param", "in_axes")
+        pair_ok, list_bad = True, False
+        for val, want2 in ((0, 0), (None, None), ((0, None), (0, None)), ([0, None], (0, None))):
+            m_ = Model()
+            m_.bind(IA, val)
+            try:
+                got = m_.ev(rec["in_axes"])
+            except Unknown:
+                pair_ok = False
+                break
+            if not (isinstance(got, (tuple, list)) and len(got) == 2 and got[0] == 0 and type(got) is tuple):
+                pair_ok = False
+            elif isinstance(val, list):
+                if isinstance(got[1], list):
+                    list_bad = True
+                elif got[1] != want2:
+                    pair_ok = False
+            elif got[1] != want2 or type(got[1]) is not type(want2):
+                pair_ok = False
+        if list_bad and pair_ok:
+            ctx.bad("NARROW-in_axes", "pjax.ModularVmap.eval", "list in_axes paired with the arguments tuple",
+                    "in_axes=[...] is accepted by jax.vmap but `(0, in_axes)` is matched against `(dummy, args)` with args a tuple: a list is not a tree prefix of a tuple, "
+                    "so modular_vmap(f, in_axes=[0, None]) raises ValueError where jax.vmap works", func_loc(ctx, PJ + "ModularVmap.eval"))
+        else:
+            ctx.ok("NARROW-in_axes", "pjax.ModularVmap.eval", "int / None / tuple / list axis specifications all pair with the arguments tuple")
+        ok = rec["which"] == "jax.vmap" and pair_ok and len(rec["args"]) == 2 and rec["args"][1] == ("param", "args")
         f = rec["f"]
         ok = ok and f[0] == "partial" and f[1] == N(PJ + "ModularVmap.stage_and_run") and len(f[2]) == 2 and f[2][1] == ("param", "fn")
         want_size = ("ifexp", ("cmp", "is", ("param", "axis_size"), NONE), call(N(PJ + "static_dim_length"), ("param", "in_axes"), ("param", "args")), ("param", "axis_size"))
@@ -1074,6 +1102,93 @@ def dummy_protocol_events(ctx, rule="SIB-dummy-arg"):
         ctx.ok(rule, "pjax.ModularVmap.eval", "jax.vmap(stage_and_run(axis_size, fn), in_axes=(0, in_axes))(dummy, args)")
     else:
         ctx.bad(rule, "pjax.ModularVmap.eval", "jax.vmap(partial(stage_and_run, axis_size, fn), in_axes=(0, in_axes), axis_size=axis_size)(dummy, args)", f"found {short(s3.ret, ev, 300)}", func_loc(ctx, PJ + "ModularVmap.eval"))
+
+
+def mvmap_fallthrough(ctx, rule="EXH-mvmap-fallthrough"):
+    """The arm of ModularVmap.eval_jaxpr_modular_vmap for primitives it does not interpret re-binds the equation under jax.vmap.  A
+    primitive that carries a sub-jaxpr with a sampling site (checkpoint, custom_jvp, while_loop, a jitted callee) is then evaluated by its
+    own batching rule: when no operand of the site is batched the site runs once and the single draw is broadcast to every lane.
+    Obligations on the guarded event log (the same three as for the State interpreter's fall-through):
+      O1 the plain re-bind is reached only under the negation of a test that looks for the sampling primitives among the equations of the
+         interpreted equation's own sub-jaxprs;  O2 the search tests sample_p and adev_sample_p and descends into nested sub-jaxprs;
+      O3 on the positive side every event is a raise or an interpretation by this interpreter of a jaxpr taken from the equation's params."""
+    ev = mk_ev(ctx)
+    dotted = PJ + "ModularVmap.eval_jaxpr_modular_vmap"
+    s = summarize(ctx, ev, dotted)
+    loc = func_loc(ctx, dotted)
+    construct = "pjax.ModularVmap.eval_jaxpr_modular_vmap[else]"
+    by = events_by_kind(s)
+    els = by.get(frozenset({"else"}), [])
+    binds = [e for e in els if e[1] == "call" and e[2][1][0] == "attr" and e[2][1][2] == "bind" and e[2][1][1][0] == "attr" and e[2][1][1][2] == "primitive"
+             and not any(k == "ctx" for k, _ in e[2][3])]
+    ctx.need(bool(binds), "ModularVmap fall-through bind not found (anchor vanished)")
+    SAMPLE, ADEV = N(PJ + "sample_p"), N(PJ + "adev_sample_p")
+
+    def is_search(c):
+        if not isinstance(c, tuple):
+            return False
+        subs = list(subterms(c))
+        if SAMPLE not in subs:
+            return False
+        for x in subs:
+            if x[0] == "attr" and x[2] == "primitive" and x[1][0] == "iter":
+                itb = x[1][2]
+                if itb[0] == "attr" and itb[2] == "eqns" and itb[1][0] != "param":
+                    if any(y[0] == "attr" and y[2] == "params" and y[1][0] == "iter" and y[1][2] == ("attr", ("param", "jaxpr"), "eqns") for y in subterms(itb[1])):
+                        return True
+        return False
+
+    def implied(c, v):
+        if isinstance(c, tuple) and c and c[0] == "unop" and c[1] == "not":
+            yield from implied(c[2], not v)
+        elif isinstance(c, tuple) and c and c[0] == "boolop" and ((c[1] == "and" and v) or (c[1] == "or" and not v)):
+            for y in c[2]:
+                yield from implied(y, v)
+        elif isinstance(c, tuple) and c and c[0] == "boolop":
+            return
+        else:
+            yield c, v
+
+    def lits(e):
+        return [(a, p) for c, v in e[0] if isinstance(c, tuple) and isinstance(v, bool) for a, p in implied(c, v)]
+    unguarded = [e for e in binds if not any(p is False and is_search(a) for a, p in lits(e))]
+    if unguarded:
+        ctx.bad(rule, construct, "unguarded eqn.primitive.bind(*args, **params)",
+                "primitives carrying a sub-jaxpr (checkpoint, custom_jvp/vjp, while_loop, a jitted callee) are re-bound under jax.vmap as they are: a sampling site inside them whose "
+                "operands are not batched runs once and its single draw is broadcast to every lane; input: modular_vmap(lambda: jax.checkpoint(lambda: normal.sample(0., 1.))(), "
+                "in_axes=(), axis_size=4)() returns four equal values", loc)
+        return
+    conds = [a for e in binds for a, p in lits(e) if p is False and is_search(a)]
+    both_kinds = all(ADEV in list(subterms(c)) for c in conds)
+    anode, amod = fnode(ctx, dotted)
+    mod_funcs = {st.name: st for st in amod.tree.body if isinstance(st, ast.FunctionDef)}
+    edges = {f: {n.func.id for n in ast.walk(node) if isinstance(n, ast.Call) and isinstance(n.func, ast.Name) and n.func.id in mod_funcs} for f, node in mod_funcs.items()}
+
+    def reach(src):
+        seen, todo = set(), list(edges.get(src, ()))
+        while todo:
+            g = todo.pop()
+            if g not in seen:
+                seen.add(g)
+                todo.extend(edges.get(g, ()))
+        return seen
+    called = {n.id for n in ast.walk(anode) if isinstance(n, ast.Name) and n.id in mod_funcs}
+    helpers = set(called)
+    for f in called:
+        helpers |= reach(f)
+    mentions = {f for f in helpers if {"sample_p", "adev_sample_p"} <= {n.id for n in ast.walk(mod_funcs[f]) if isinstance(n, ast.Name)}}
+    recursive = any(f in reach(f) for f in mentions)
+    if not both_kinds or not recursive:
+        ctx.bad(rule, construct, "the site search covers sample_p and adev_sample_p and descends into nested sub-jaxprs",
+                ("the search does not test adev_sample_p" if not both_kinds else "only the equations of the immediate sub-jaxpr are inspected") +
+                ": a site of the other kind / one level deeper is still re-bound and broadcast", loc)
+        return
+    pos = [e for e in els if any(p is True and is_search(a) for a, p in lits(e))]
+    handled = [e for e in pos if e[1] == "raise" or (e[1] == "call" and e[2][1][0] in ("attr", "name") and (e[2][1][-1] if e[2][1][0] == "attr" else e[2][1][1]).endswith("eval_jaxpr_modular_vmap"))]
+    if not handled:
+        ctx.bad(rule, construct, "a sub-jaxpr with sampling sites is interpreted by this interpreter or rejected", "the search result is computed but neither raises nor interprets the sub-jaxpr", loc)
+        return
+    ctx.ok(rule, construct, "before the re-bind, sampling sites found (recursively) in the equation's sub-jaxprs are vectorised by this interpreter or rejected with an error")
 
 
 def modular_vmap_control_flow_events(ctx, rule="ROLE-modular_vmap"):
